@@ -58,7 +58,9 @@ func (p *Forkable) AllBlocksAt(num uint64) (out []*pbbstream.Block) {
 	defer p.RUnlock()
 	for id, n := range p.forkDB.nums {
 		if n == num {
-			out = append(out, p.forkDB.objects[id].(*ForkableBlock).Block)
+			if fb, ok := p.forkDB.objects[id].(*ForkableBlock); ok {
+				out = append(out, fb.Block)
+			}
 		}
 	}
 	return
@@ -142,7 +144,9 @@ func (p *Forkable) blocksFromNumWithForks(startNum uint64) ([]*bstream.Preproces
 	var wantedBlocks []*ForkableBlock
 	for id, num := range p.forkDB.nums {
 		if num >= startNum {
-			wantedBlocks = append(wantedBlocks, p.forkDB.objects[id].(*ForkableBlock))
+			if fb, ok := p.forkDB.objects[id].(*ForkableBlock); ok {
+				wantedBlocks = append(wantedBlocks, fb)
+			}
 		}
 	}
 
